@@ -9,12 +9,12 @@ From V.C10 Require Import Spec Lock Model Proofs.
    those methods, and any schedule, no two threads are ever about to access the same field with one of
    them writing (two concurrent map writes / a map read concurrent with a write are exactly such states) *)
 Theorem well_locked_race_free : forall tbl, well_locked tbl = true ->
-  forall progs sched, Forall (from_table tbl) progs -> ~ race (Lock.run (init_state progs) sched).
+  forall progs sched, Forall (from_table tbl) progs -> ~ race (LockDiscipline.run (init_state progs) sched).
 Proof. exact well_locked_race_free_l. Qed.
 Print Assumptions well_locked_race_free.
 
 Theorem well_locked_mutual_exclusion : forall tbl, well_locked tbl = true ->
-  forall progs sched, Forall (from_table tbl) progs -> excl_alone (Lock.run (init_state progs) sched).
+  forall progs sched, Forall (from_table tbl) progs -> excl_alone (LockDiscipline.run (init_state progs) sched).
 Proof. exact well_locked_mutex_l. Qed.
 Print Assumptions well_locked_mutual_exclusion.
 
@@ -22,7 +22,7 @@ Print Assumptions well_locked_mutual_exclusion.
    non-re-entrant lock is held *)
 Theorem well_locked_no_callout_under_lock : forall tbl, well_locked tbl = true ->
   forall progs sched, Forall (from_table tbl) progs ->
-  forall i h r, nth_error (Lock.run (init_state progs) sched) i = Some (h, AExt :: r) -> h = Free.
+  forall i h r, nth_error (LockDiscipline.run (init_state progs) sched) i = Some (h, AExt :: r) -> h = Free.
 Proof. exact well_locked_ext_free_l. Qed.
 Print Assumptions well_locked_no_callout_under_lock.
 
